@@ -13,6 +13,7 @@ import (
 	"github.com/jamf/regatta/regattapb"
 	"github.com/jamf/regatta/storage/table/fsm"
 	"github.com/jamf/regatta/storage/table/key"
+	"github.com/jamf/regatta/util/iter"
 	"pgregory.net/rapid"
 
 	"verifharness/internal/fsmx"
@@ -295,6 +296,29 @@ func runFSM(c FSMCase, o *vt.Obs) *vt.Failure {
 	if resp.Count != int64(want) {
 		return vt.Failf(prop+"/wildcard-read", 2, "count of [%q, *) = %d want %d", c.LowKey, resp.Count, want)
 	}
+	// a streamed read over [low, end) obtained first and consumed after other keys were encoded by other requests: the bounds given in
+	// user-key space must still select exactly the keys between them ("range bounds mean the same in both spaces")
+	if v, err := r.SM.Lookup(fsm.IteratorRequest{RangeOp: &regattapb.RequestOp_Range{Key: c.LowKey, RangeEnd: c.RangeEnd, KeysOnly: true}}); err == nil {
+		_, _ = r.Range(&regattapb.RequestOp_Range{Key: []byte("zz-other-request")})
+		_, _ = r.Range(&regattapb.RequestOp_Range{Key: []byte{1}, RangeEnd: []byte("m")})
+		var got []string
+		v.(iter.Seq[*regattapb.ResponseOp_Range])(func(x *regattapb.ResponseOp_Range) bool {
+			for _, kv := range x.Kvs {
+				got = append(got, string(kv.Key))
+			}
+			return true
+		})
+		var wantKeys []string
+		wildEnd := bytes.Equal(c.RangeEnd, []byte{0})
+		for _, k := range sorted {
+			if k >= string(c.LowKey) && (wildEnd || k < string(c.RangeEnd)) {
+				wantKeys = append(wantKeys, k)
+			}
+		}
+		if fmt.Sprint(got) != fmt.Sprint(wantKeys) {
+			return vt.Failf(prop+"/bounds-differ-between-spaces", 2, "streamed read of [%q, %q~%dB) consumed after other requests returned %d keys %q, the user keys in that range are %d: %q", clip(c.LowKey), clip(c.RangeEnd), len(c.RangeEnd), len(got), shortStr(got), len(wantKeys), shortStr(wantKeys))
+		}
+	}
 	// range deletes with extreme bounds: first an explicit bound, then the wildcard; bookkeeping must survive
 	del1 := &regattapb.Command{Table: []byte("t"), Type: regattapb.Command_DELETE, Kv: &regattapb.KeyValue{Key: []byte{0}}, RangeEnd: c.RangeEnd, Count: true}
 	b1, _ := del1.MarshalVT()
@@ -358,6 +382,17 @@ func clip(b []byte) []byte {
 		return b[:10]
 	}
 	return b
+}
+
+func shortStr(ks []string) []string {
+	var out []string
+	for _, k := range ks {
+		if len(k) > 12 {
+			k = k[:12] + "..."
+		}
+		out = append(out, k)
+	}
+	return out
 }
 
 func shortAll(ks [][]byte) []string {
